@@ -145,13 +145,21 @@ class SB:
         return NotImplemented
 
     # --- arithmetic ---
+    def _bool_bool(self, o, what):
+        # the sum / difference of two symbolic BOOLEANS is 0..2 for Python bools but a logical or (TypeError for -) for numpy.bool_; the model cannot tell
+        # which of the two a comparison result is, so it refuses instead of guessing
+        if self.isbool and ((isinstance(o, SB) and o.isbool) or isinstance(o, (bool, np.bool_))):
+            raise Unsupported(f"{what} of two boolean values (Python int arithmetic vs numpy logical operation: not modelled)")
+
     def __add__(self, o):
+        self._bool_bool(o, "sum")
         if is_cint(o):                    # bit + constant: counter-like, keep as guarded alternatives
             return SV([(self.e, 1 + int(o)), (X.Not(self.e), int(o))]).simp()
         return SL.of(self) + o
     __radd__ = __add__
 
     def __sub__(self, o):
+        self._bool_bool(o, "difference")
         if is_cint(o):
             return SV([(self.e, 1 - int(o)), (X.Not(self.e), -int(o))]).simp()
         return SL.of(self) - o
